@@ -11,5 +11,8 @@ func init() {
 		"every histogram point (identified and overflow) is compared field by field with the measurements folded into it: count, sum, min, max (NoMinMax is never configured), explicit bucket counts by the documented (lower, upper] rule against the configured bounds, exponential zero count; exponential bucket placement is left to C07",
 		"non-finite float64 measurements (+Inf, NaN; -Inf where negative values are allowed) are counted like any other measurement by sum, last-value and explicit-bucket histogram streams (the set takes an identity slot, count conservation holds, sums follow IEEE with NaN == NaN; min/max and the bucket of a point that folded a NaN are not predicted, only that every measurement is in exactly one bucket); the base-2 exponential aggregation ignores non-finite values by design on the pinned tree (no point, no slot, not counted) and is modelled so",
 		"attribute filters may decide on key AND value (attribute.Filter takes a KeyValue): generated value-dependent filters are pure functions of one key-value pair and the reference applies the same predicate to every key-value of every measurement; limit_concurrent uses no attribute filter",
+		"OTEL_GO_X_CARDINALITY_LIMIT is read as documented ('the integer limit value'; 'All other values are ignored'; '<= 0: no limit'): optional sign + decimal digits = that integer, leading zeros included; values no reading takes for an integer = no limit; spellings the documentation leaves open (0x10, 1_000, 1e3, 2.0, blanks) are not generated",
+		"a synchronous instrument requested twice from one meter (identically or with its name in upper case) is one instrument: one stream, one set table, every measurement counted once whichever handle made it",
+		"'one collection' is the content of the ResourceMetrics after Collect returned, also when the same ResourceMetrics is passed to every Collect of a reader",
 	))
 }
